@@ -5,7 +5,7 @@ FUNCTIONS = ['tangermeme.marginalize.marginalize', 'tangermeme.ablate.ablate', '
              'tangermeme.ablate.ablate_annotations', 'tangermeme.space.space',
              'tangermeme.product.apply_product', 'tangermeme.product.apply_pairwise']
 BOUNDED = 'bounded.C08'
-BOUNDED_BUDGET = {'quick': 60, 'thorough': 600}
+BOUNDED_BUDGET = {'quick': 120, 'thorough': 600}
 LEVEL = 'other'
 EXPLANATION = ("index identity of every wrapper output as a postcondition over an uninterpreted row-wise func/model "
                "(row contents as z3 lambda arrays): marginalize before/after, ablate through reshape(-1), repeat_interleave "
